@@ -73,7 +73,7 @@ inductive Atom (env : Env) : St → St → Prop
       Atom env st { st with bank := st.bank.move a d x c }
   | supply (st : St) (d : Str) (x : Int) (h : SupplyOk st.bankers d) :
       Atom env st { st with bank := { st.bank with led := st.bank.led.setSupply d x } }
-  | spent (st : St) (s : Coins) : Atom env st { st with spent := s }
+  | spent (st : St) (s : Coins) (h : s = st.spent ∨ isAllGTE env.osend s = true) : Atom env st { st with spent := s }
   | params (st : St) (p : List ((Str × Str) × Nat)) (ac : List (Str × Accum)) :
       Atom env st { st with params := p, accum := ac }
 
@@ -94,14 +94,14 @@ def BankerProv (env : Env) (persisted : List BankerInfo) (toks : List TokInfo) (
       CurrentAt ti t top ∧ TokOk env toks ti)
 
 /-- why the debit `e` of the event log is allowed -/
-def Authorised (env : Env) (persisted : List BankerInfo) (signer : Nat) (w w' : World)
+def Authorised (env : Env) (persisted : List BankerInfo) (signer : Nat) (diffs : List (Str × Int))
     (toks : List TokInfo) (bankers : List BankerInfo) (e : Ev) : Prop :=
   match e.cause with
   | .msgSend => e.addr = .user signer            -- the coins the signer sends along
   | .bankSend => e.addr = .user signer           -- the signer's bank send
   | .depositLock _ => e.addr = .user signer      -- storage deposit the signer pays
   | .depositRefund r =>                          -- a realm's deposit address, storage of that realm released
-    e.addr = .dep r ∧ ∃ old new, alGet w.realms r = some old ∧ alGet w'.realms r = some new ∧ new.storage < old.storage
+    e.addr = .dep r ∧ ∃ diff, (r, diff) ∈ diffs ∧ diff < 0
   | .bankerSend bid =>                           -- a banker bound to exactly this address
     ∃ bi : BankerInfo, bankers[bid]? = some bi ∧ bi.bt ≠ 0 ∧ bi.addr = some e.addr ∧ BankerProv env persisted toks bid bi
   | .burn bid =>                                 -- the issuing realm removes its own denomination
